@@ -437,6 +437,32 @@ _reg(EW1("sin", np.sin, "sin"))
 _reg(EW1("cos", np.cos, "cos"))
 _reg(EW1("tanh", np.tanh, "tanh"))
 _reg(EW1("sqrt", np.sqrt, "sqrt", domain=lambda a: a > 0.1))
+_far = lambda lo, hi=None: (lambda a: (np.abs(a) > lo) & ((np.abs(a) < hi) if hi is not None else True))  # noqa: E731
+for _n, _dom in [
+    ("arccos", lambda a: np.abs(a) < 0.9), ("arcsin", lambda a: np.abs(a) < 0.9), ("arctan", None), ("arccosh", lambda a: a > 1.1), ("arcsinh", None),
+    ("arctanh", lambda a: np.abs(a) < 0.9), ("cbrt", _far(0.1)), ("cosh", lambda a: np.abs(a) < 5), ("sinh", lambda a: np.abs(a) < 5),
+    ("tan", lambda a: np.abs(np.cos(a)) > 0.2), ("exp2", lambda a: np.abs(a) < 8), ("expm1", lambda a: np.abs(a) < 6), ("log10", lambda a: a > 0.1),
+    ("log2", lambda a: a > 0.1), ("log1p", lambda a: a > -0.8), ("reciprocal", _far(0.2)),
+]:
+    _reg(EW1(_n, getattr(np, _n), _n, domain=_dom))
+# MyGrad-only names (no NumPy namesake: the reference is the textbook definition)
+for _n, _f, _dom in [
+    ("cot", lambda a: 1 / np.tan(a), lambda a: (np.abs(np.sin(a)) > 0.2) & (np.abs(np.cos(a)) > 0.05)),
+    ("sec", lambda a: 1 / np.cos(a), lambda a: np.abs(np.cos(a)) > 0.2),
+    ("csc", lambda a: 1 / np.sin(a), lambda a: np.abs(np.sin(a)) > 0.2),
+    ("coth", lambda a: 1 / np.tanh(a), _far(0.2, 5)),
+    ("sech", lambda a: 1 / np.cosh(a), lambda a: np.abs(a) < 5),
+    ("csch", lambda a: 1 / np.sinh(a), _far(0.2, 5)),
+    ("arccot", lambda a: np.arctan(1 / a), _far(0.2)),
+    ("arccoth", lambda a: np.arctanh(1 / a), _far(1.1)),
+    ("arccsc", lambda a: np.arcsin(1 / a), _far(1.1)),
+    ("arcsec", lambda a: np.arccos(1 / a), _far(1.1)),
+    ("arccsch", lambda a: np.arcsinh(1 / a), _far(0.2)),
+]:
+    _reg(EW1(_n, _f, _n, spellings=("f",), domain=_dom))
+_reg(EW2("arctan2", np.arctan2, "arctan2", domain=lambda a, b: np.all(a * a + b * b > 0.05)))
+_reg(EW2("logaddexp", np.logaddexp, "logaddexp", domain=lambda a, b: np.all(np.abs(a) < 20) and np.all(np.abs(b) < 20)))
+_reg(EW2("logaddexp2", np.logaddexp2, "logaddexp2", domain=lambda a, b: np.all(np.abs(a) < 20) and np.all(np.abs(b) < 20)))
 _reg(EW2("add", np.add, "add", exact=True, spellings=("f", "n", "o"), opr=_op.add))
 _reg(EW2("sub", np.subtract, "subtract", exact=True, spellings=("f", "n", "o"), opr=_op.sub))
 _reg(EW2("mul", np.multiply, "multiply", exact=True, spellings=("f", "n", "o"), opr=_op.mul))
